@@ -156,8 +156,10 @@ theorem connectBestChain_light {P : Params} (s : State) (b : Blk) (tip : Blk) (r
     split
     · exact ⟨rfl, by simp⟩
     · rename_i ptd hpt
-      rw [if_pos (hlight tiptd ptd htt hpt)]
-      split <;> exact ⟨rfl, by simp⟩
+      split
+      · exact ⟨rfl, by simp⟩
+      · rw [if_pos (hlight tiptd ptd htt hpt)]
+        exact ⟨rfl, by simp⟩
 
 theorem processOrphans_none {P : Params} (s : State) (id : Nat) (fuel : Nat)
     (hno : ∀ o ∈ s.orphans, o.1.parent ≠ id) : processOrphans P (fuel + 2) [id] s = (s, none) := by
@@ -276,5 +278,93 @@ theorem maybeAcceptBlock_reject_tip {P : Params} (s : State) (b : Blk) (src : Sr
         have hb' : (addIndex s1 b src).best = tip :: rest := by rw [h2.1, h1.1, hbest]
         have h3 := connectBestChain_reject (P := P) (addIndex s1 b src) b tip rest hb' hpar (hinv _)
         exact ⟨(h1.trans h2).trans h3.1, h3.2⟩
+
+end C27
+
+namespace C27
+open C25 (Map upd)
+
+/-! ### no fork point (repo commit a2015e1) -/
+
+theorem findFork_congr {s s' : State} (b : Blk) (h1 : s'.index = s.index) (h2 : s'.ghosts = s.ghosts)
+    (h3 : s'.best = s.best) : findFork s' b = findFork s b := by
+  unfold findFork
+  rw [h1, h2, h3]
+
+/-- `connectBestChain` of a block that is not on the tip and whose fork point is not found:
+refused, the state is returned untouched. -/
+theorem connectBestChain_no_fork {P : Params} (s : State) (b : Blk) (tip : Blk) (rest : List Blk)
+    (hbest : s.best = tip :: rest) (hpar : b.parent ≠ tip.id) (hnf : findFork s b = none) :
+    (connectBestChain P s b).1 = s ∧ ∃ e, (connectBestChain P s b).2 = .err e := by
+  unfold connectBestChain
+  rw [hbest]
+  simp only [hpar, if_false]
+  split
+  · exact ⟨rfl, _, rfl⟩
+  · split
+    · exact ⟨rfl, _, rfl⟩
+    · rw [hnf]
+      exact ⟨rfl, _, rfl⟩
+
+/-- a delivery whose fork point is not found is a no-op on the chain part, in any node state. -/
+theorem processBlock_no_fork {P : Params} (s : State) (b : Blk) (src : Src)
+    (tip : Blk) (rest : List Blk) (hbest : s.best = tip :: rest) (hpar : b.parent ≠ tip.id)
+    (hnf : findFork (addIndex s b src) b = none) :
+    SameChain s (processBlock P s b src).1 ∧
+    ((processBlock P s b src).2 = .orphan ∨ ∃ e, (processBlock P s b src).2 = .err e) := by
+  have hu := aux_unorphan' s b
+  have hui : (unorphan s b).index = s.index ∧ (unorphan s b).ghosts = s.ghosts := by
+    unfold unorphan; split <;> exact ⟨rfl, rfl⟩
+  unfold processBlock
+  split
+  · exact ⟨SameChain.refl s, Or.inr ⟨_, rfl⟩⟩
+  · split
+    · exact ⟨SameChain.refl s, Or.inr ⟨_, rfl⟩⟩
+    · split
+      · exact ⟨SameChain.refl s, Or.inr ⟨_, rfl⟩⟩
+      · split
+        · exact ⟨(sameChain_of_aux hu).trans (sameChain_of_aux (aux_addOrphan _ b src)), Or.inl rfl⟩
+        · have key : SameChain (unorphan s b) (maybeAcceptBlock P (unorphan s b) b src).1 ∧
+              ∃ e, (maybeAcceptBlock P (unorphan s b) b src).2 = .err e := by
+            unfold maybeAcceptBlock
+            split
+            · exact ⟨SameChain.refl _, _, rfl⟩
+            · split
+              · exact ⟨SameChain.refl _, _, rfl⟩
+              · split
+                · exact ⟨SameChain.refl _, _, rfl⟩
+                · rename_i s1 hs1
+                  have h1 := sameChain_storeBlock hs1
+                  have hs1i : s1.index = s.index ∧ s1.ghosts = s.ghosts := by
+                    unfold storeBlock at hs1
+                    split at hs1
+                    · cases hs1; exact hui
+                    · split at hs1
+                      · cases hs1
+                      · cases hs1; exact hui
+                  have hb' : (addIndex s1 b src).best = tip :: rest := by
+                    show s1.best = tip :: rest
+                    rw [h1.1, hu.2.2.2.2.1, hbest]
+                  have hnf' : findFork (addIndex s1 b src) b = none := by
+                    rw [← hnf]
+                    apply findFork_congr
+                    · show b :: s1.index = b :: s.index
+                      rw [hs1i.1]
+                    · exact hs1i.2
+                    · show s1.best = s.best
+                      rw [h1.1, hu.2.2.2.2.1]
+                  have hc := connectBestChain_no_fork (P := P) (addIndex s1 b src) b tip rest hb' hpar hnf'
+                  rw [hc.1]
+                  exact ⟨h1.trans (sameChain_addIndex s1 b src), hc.2⟩
+          unfold acceptAndDrain
+          split
+          · exact ⟨sameChain_of_aux hu, Or.inr ⟨_, rfl⟩⟩
+          · obtain ⟨e, he⟩ := key.2
+            cases hm : maybeAcceptBlock P (unorphan s b) b src with
+            | mk s1 r =>
+              rw [hm] at key he
+              simp only at he
+              subst he
+              exact ⟨(sameChain_of_aux hu).trans key.1, Or.inr ⟨e, rfl⟩⟩
 
 end C27
